@@ -174,7 +174,7 @@ class C07(flow.Spec):
 
     def cases(self, ctx, seed, tier, round_no=0):
         rng = random.Random(seed * 1000003 + round_no * 7919 + 7)
-        n = 5000 if tier == "quick" else 12000
+        n = 3000 if tier == "quick" else 12000
         cs = []
         if tier != "quick" and round_no == 0:
             self._tsan(ctx, seed)
